@@ -87,6 +87,20 @@ CLAIMED = {
         technique="SQL macro -> SMT (sqlglot AST, 3VL, char-vector strings, closed-form calendar) per-path VCs "
                   "discharged by z3/cvc5; model conformance against real DuckDB; replay in real DuckDB",
         design_ref="§2 C08"),
+    "C22": dict(
+        level="proof",
+        text="Inter-procedural frame (assigns) contracts over the real source of the API layer, the pandas/CSV loaders, "
+             "the SDMX handler and the DuckDB io package: for every public entry point and caller-facing parameter no "
+             "object reachable from the argument is in any write frame, on every path (may-alias, flow-sensitive "
+             "re-binding, shallow-copy and return-alias summaries). Refutations are replayed natively with deep "
+             "argument snapshots; the snapshot monitor also runs over a pool of valid/invalid calls (bounded tier).",
+        note="Static may-alias analysis: sound only under the assumed clauses for externals (pandas non-inplace methods, "
+             "pysdmx, json, deepcopy) and without following dynamic dispatch inside the Interpreter/Transpiler (their "
+             "inputs are deep copies). prettify/generate_sdmx/run_sdmx: frame clause only (parser / SDMX files needed "
+             "to run them).",
+        technique="frame (assigns) contracts by inter-procedural may-alias analysis of the real AST; native snapshot "
+                  "replay and run-time monitor",
+        design_ref="§2 C22"),
     "C21": dict(
         level="proof",
         text="The SQL codec macros (vtl_period_normalize, vtl_period_to_vtl / _sdmx_reporting / _sdmx_gregorian / "
